@@ -151,7 +151,7 @@ def tie(tier, seed):
     items = items_for(tier, seed)
     out, errors = par.run(items, export_item)
     agree = total = skipped = 0
-    rot_yes = rot_no = rot_other = 0
+    rot_yes = rot_no = rot_other = early_yes = 0
     rot_unmet = []
     mism = []
     shapes = {}
@@ -174,6 +174,8 @@ def tie(tier, seed):
                     rot_yes += 1
                 elif x[3] == 2:
                     rot_other += 1
+                elif x[3] == 3:
+                    early_yes += 1
                 else:
                     rot_no += 1
                     if len(rot_unmet) < 4:
@@ -183,6 +185,7 @@ def tie(tier, seed):
             elif len(mism) < 4:
                 mism.append({"graph": item[1], "columns": x})
     return {"calls_compared": total, "agree": agree, "mismatch_count": total - agree, "mismatches": mism,
-            "plain_rotations_meeting_path_theorem_hypotheses": rot_yes, "plain_rotations_not_meeting_them": rot_no,
-            "plain_rotation_unmet_examples": rot_unmet, "calls_that_are_no_plain_rotation": rot_other,
+            "plain_rotations_meeting_path_theorem_hypotheses": rot_yes, "plain_rotations_or_early_returns_not_meeting_them": rot_no,
+            "plain_rotation_unmet_examples": rot_unmet, "early_returns_meeting_path_theorem_hypotheses": early_yes,
+            "calls_with_several_headers": rot_other,
             "calls_by_shape": shapes, "skipped": skipped, "harness_errors": [repr(e)[:200] for e in errors][:3]}
